@@ -49,7 +49,11 @@ class Report:
         self.candidates.append({'rule': rule, 'fn': _n(fn), 'site': site, 'why': why})
 
     def floor(self, rule, what, got, need):
-        """Fail closed when fewer instances / anchors are found than were confirmed by hand."""
+        """Fail closed when a rule would pass vacuously: no instance of what it quantifies over was found. The number confirmed
+        by hand (`need`) is kept in the report, but only zero is an alarm — a refactoring that merges or splits sites changes
+        the count without changing the behaviour."""
+        self.notes.append('%s: %s = %d (confirmed by hand on the development tree: >= %d)' % (rule, what, got, need))
+        need = min(need, 1)
         if got < need:
             self.violation(rule, 'anchor-missing', what, '-',
                            'anchor-missing: %s: found %d, confirmed floor is %d — the rule would pass vacuously' % (what, got, need))
@@ -281,6 +285,11 @@ def main(argv):
         for pid in claimed():
             rc |= run_property(pid, tier, fdir, th, dt)
         return rc
+    if cmd == 'inventory':
+        # run on the tree the rules were developed on (after a fix: commit that adds functions): freezes the function inventory
+        fdir, th, dt = facts.ensure_facts()
+        print('inventory: %d functions' % facts.write_inventory(fdir))
+        return 0
     if cmd == 'show':
         fdir, th, dt = facts.ensure_facts()
         cr = facts.load(fdir, argv[1])
